@@ -6,7 +6,7 @@ from .solver_common import run_parallel, run_bbox
 from .. import solvers, bbox
 from ..impl import Pen
 
-LEAN_MODULES = ["Skglm.Properties.C19", "Skglm.Properties.MultiTask", "Skglm.Properties.GramCD"]
+LEAN_MODULES = ["Skglm.Properties.C19", "Skglm.Properties.ProxNewtonDir", "Skglm.Properties.MultiTask", "Skglm.Properties.GramCD"]
 SPARSITY = ("l1", "wl1", "l1l2", "mcp", "wmcp", "scad", "logsum")
 
 
@@ -19,9 +19,12 @@ def zero_cols_acd(case, res, rep):
     if not stop <= tol or case.pen.kind not in SPARSITY:
         return
     p = case.X.shape[1]
+    w0 = None if case.w_init is None else np.asarray(case.w_init, float)
     for j in range(p):
         lvl = (case.pen.alpha or 0) * (case.wts[j] if case.pen.kind in Pen.WEIGHTED else 1.0) * (
             case.pen.l1_ratio if case.pen.kind == "l1l2" else 1.0)
+        if w0 is not None and w0[j] != 0:
+            continue        # started away from zero on a null column: C01 / C05 territory (see KF-NULLCOL-WARM)
         if not np.any(case.X[:, j]) and lvl > 10 * tol and w[j] != 0:
             rep.violate("an all-zero column received a non-zero penalised coefficient at convergence",
                         dict(case.signature(site="AndersonCD.solve"), kind="null-column-nonzero"), case=case.describe(),
@@ -39,9 +42,12 @@ def zero_cols_bb(case, res, rep, rng):
     if not conv or case.pen.kind not in SPARSITY:
         return
     ww, _ = case.split(w)
+    w0 = None if case.w_init is None else np.asarray(case.w_init, float)
     for j in range(case.X.shape[1]):
         lvl = (case.pen.alpha or 0) * (case.wts[j] if case.pen.kind in Pen.WEIGHTED else 1.0) * (
             case.pen.l1_ratio if case.pen.kind == "l1l2" else 1.0)
+        if w0 is not None and w0[j] != 0:
+            continue        # started away from zero on a null column: C01 / C05 territory (see KF-NULLCOL-WARM)
         if not np.any(case.X[:, j]) and lvl > 10 * tol and ww[j] != 0:
             rep.violate("an all-zero column received a non-zero penalised coefficient at convergence",
                         dict(case.signature(site=f"{case.solver}.solve"), kind="null-column-nonzero"),
@@ -61,6 +67,7 @@ def run(ctx, rep):
     run_parallel(ctx, rep, oracles=["feasible", "cert", "zero_cols"], gen_opts=dict(degenerate=True))
     run_bbox(ctx, rep, oracles=["feasible", "cert", "zero_cols"], degenerate=True)
     from . import moves_common
+    moves_common.run_pn_direction(ctx, rep, ctx.n(20, 300))
     moves_common.run_mt_moves(ctx, rep, ctx.n(20, 300))
     moves_common.run_gram_moves(ctx, rep, ctx.n(30, 300))
 
